@@ -520,9 +520,9 @@ func runC10(h *H) {
 			continue
 		}
 		stride := 1
-		if full > 600 {
-			// a long reply of identical lines: every offset of the first 150 bytes and of the last
-			// 150, every 7th in between (quick tier)
+		if op.name == "move-fallback-copy-refused" {
+			// a long reply of 140 identical lines: every offset of the first 150 bytes and of the
+			// last 150, every 7th in between (quick tier)
 			stride = h.Pick(7, 1)
 		}
 		for cut := 0; cut <= full; cut++ {
